@@ -34,7 +34,10 @@ EXTENDS Naturals, Sequences, FiniteSets, TLC
 
 CONSTANTS Mods, Procs, MaxVer, MaxClock,
           Assume,         \* TRUE: MtimeMonotone is imposed on the mutations
-          ProjectKeepsScriptPaths   \* FALSE (the code) | TRUE (what-if)
+          ProjectKeepsScriptPaths,  \* FALSE (the code) | TRUE (what-if)
+          BufferShadowsDisk         \* TRUE (the code): Script(code, path=m) files the tree of the UNSAVED buffer in the
+                                    \* in-memory parser cache under the path of m, stamped with the file's mtime; a later
+                                    \* Script that imports m gets that tree while the file is not newer.  FALSE = repaired
 
 Absent == 0
 VARIABLES fs,       \* [Mods -> [ver, mtime]]   ver = Absent: no such file
@@ -80,6 +83,12 @@ NewProcess(p) == /\ mem' = [mem EXCEPT ![p] = [m \in Mods |-> None]]
                  /\ finder' = [finder EXCEPT ![p] = [listing |-> {}, dm |-> 0]]
                  /\ projpaths' = [projpaths EXCEPT ![p] = FALSE]
                  /\ UNCHANGED <<fs, dirm, now, nver, maxseen, pick, ans, bufpkg>>
+\* an editor buffer of module m with unsaved changes is analysed in process p (nothing is written to disk)
+OpenBuffer(p, m) ==
+  /\ fs[m].ver # Absent /\ nver < MaxVer
+  /\ nver' = nver + 1                                   \* the buffer's content is a text of its own
+  /\ mem' = IF BufferShadowsDisk THEN [mem EXCEPT ![p][m] = [ver |-> nver + 1, t |-> fs[m].t]] ELSE mem
+  /\ UNCHANGED <<fs, dirm, now, maxseen, pick, finder, ans, bufpkg, projpaths>>
 \* the buffer's directory gets / loses its __init__.py (regular package <-> plain directory)
 ToggleInit == /\ Later /\ bufpkg' = ~bufpkg /\ dirm' = now
               /\ UNCHANGED <<fs, now, nver, maxseen, mem, pick, finder, ans, projpaths>>
@@ -124,7 +133,7 @@ ResolveTop(p, m) ==
 
 Next == Tick \/ (\E m \in Mods : Write(m) \/ Delete(m)) \/ (\E a, b \in Mods : Rename(a, b))
         \/ (\E p \in Procs : NewProcess(p)) \/ (\E p \in Procs, m \in Mods : Resolve(p, m) \/ ResolveTop(p, m))
-        \/ ToggleInit
+        \/ ToggleInit \/ (\E p \in Procs, m \in Mods : OpenBuffer(p, m))
 Spec == Init /\ [][Next]_vars
 
 \* "a definition that no longer exists is never reported and a new one is never missed"
